@@ -4,7 +4,7 @@
 From Utp Require Import Base.Prelude Wire.SeqNr Wire.Header Sock.Dispatcher Sock.Dispatcher_Proofs
   Sock.DispObs Sock.DispObs_Proofs.
 From Utp Require Import Sock.DispFresh_Proofs Sock.DispSlots_Proofs Sock.DispPending_Proofs
-  Sock.DispWiring_Proofs.
+  Sock.DispWiring_Proofs Sock.DispFreshTable_Proofs.
 
 (* keys unique, table never larger than the limit, backlog bounds: every reachable state *)
 Theorem c12_keys_unique_and_limit : forall max_streams random ops,
@@ -226,3 +226,20 @@ Print Assumptions c12_pending_ids_distinct_refuted.
 Print Assumptions c12_pending_id_reserved_refuted.
 Print Assumptions c12_outgoing_key_is_announced_id_refuted.
 Print Assumptions c12_outgoing_connection_key.
+
+(* the same under the weaker, observable hypothesis conn_id_space_ok_obs m pre :=
+   (m <=? 32768) || (table size + SYN backlog of the observation before the step <? 32768),
+   which also covers a limit above 32768 while the table is small *)
+Theorem c12_syn_fresh_every_step_obs : forall s o s' e,
+  d_inv s -> conn_id_space_ok_obs (d_max_streams s) (dobs_of s) = true -> dstep s o = (s', e) ->
+  c12_syn_fresh_ok (dobs_of s) (syn_keys e) = true.
+Proof. exact c12_syn_fresh_model_obs. Qed.
+
+Theorem c12_syn_fresh_every_trace_obs : forall max_streams ops s,
+  d_inv s -> d_max_streams s = max_streams ->
+  forallb (fun p => implb (conn_id_space_ok_obs max_streams (fst p)) (c12_syn_fresh_ok (fst p) (snd p)))
+          (dfresh_trace s ops) = true.
+Proof. exact c12_syn_fresh_trace_obs. Qed.
+
+Print Assumptions c12_syn_fresh_every_step_obs.
+Print Assumptions c12_syn_fresh_every_trace_obs.
